@@ -175,6 +175,22 @@ def run(ctx):
     ctx.floor("C18.R5", 100)
     ctx.floor("C18.R6", 15)
 
+    # ---- R7: a missing context key inside _sizeof is turned into SizeofError by the construct that evaluates it (so the path names it,
+    #      not the first enclosing structure that happens to translate); shared with C05.R1
+    from . import C05, C06
+    for fi in M.own_methods("_sizeof") + M.own_methods("_actualsize"):
+        C05.check_sizeof_def(ctx, fi, fi.cls.name, rule="C18.R7")
+    for name, mf in M.macros().items():
+        for cl in M.closures(mf):
+            if cl.name in ("_sizeof", "_actualsize"):
+                C05.check_sizeof_def(ctx, cl, None, rule="C18.R7")
+    ctx.floor("C18.R7", 60)
+    # ---- R8: parsing consumes a member's bytes by reading them (a forward seek over padding moves a truncation error to a later member
+    #      or hides it); shared with C06.R6
+    for fi, cls in protocol_functions(M, C06.PARSE_SIDE):
+        C06.check_seeks(ctx, fi, cls, rule="C18.R8")
+    ctx.floor("C18.R8", 10)
+
     # ---- positive control: a raise without path and a sub call with a literal path must be reported
     ctl = control_model(
         "class ConstructError(Exception):\n    pass\nclass StreamError(ConstructError):\n    pass\n"
